@@ -23,6 +23,7 @@ include!("c10_parts/shrink.rs");
 include!("c10_parts/run.rs");
 include!("c10_parts/sweep.rs");
 include!("c10_parts/binop.rs");
+include!("c10_parts/layout.rs");
 
 // ---- hook H2 switch -------------------------------------------------------------------------------
 // `on`: /repo contains the H2 hook (koto_parser::verif, commit "verif hook H2"); `off`: the (K)
@@ -72,6 +73,11 @@ fn main() {
         }
         return;
     }
+    if args.has_flag("--layout-matrix") {
+        let mut rng = Rng::new(args.seed);
+        cx.layout_stream(&mut rng, 3, true);
+        return;
+    }
     if args.has_flag("--binop-matrix") {
         // development aid: which broken binary-operator layouts does the linked parser accept?
         let mut rng = Rng::new(args.seed);
@@ -86,6 +92,7 @@ fn main() {
 
     // 0. structural tie, witnesses of listed findings, regression corpus
     cx.interface_check();
+    cx.parse_term_table_check();
     cx.known_findings();
     if let Some(dir) = &args.corpus {
         cx.corpus(dir);
@@ -105,6 +112,9 @@ fn main() {
 
     // 1c. binary-operator chains broken over 2..5 lines in every bracketed context and outside brackets
     cx.binop_stream(&mut rng, if thorough { 8000 } else { 1500 }, false);
+
+    // 1d. closers on their own line, paren-free argument lists over several lines, keyword values
+    cx.layout_stream(&mut rng, if thorough { 12 } else { 2 }, false);
 
     // 2. repository sources: cursor traces, trivia invariance, cut-off sweep
     cx.repo_sources(&mut rng, thorough);
